@@ -232,7 +232,13 @@ def special_programs():
     nums2 = copy.deepcopy(nums)
     nums2['symbols'][-2]['name'] = '2'
     nums2['symbols'][-1]['name'] = '3'
-    return [ring, nums, nums2]
+    nums3 = copy.deepcopy(nums)           # a numeric label strictly inside the range of automatic numbers
+    nums3['symbols'][-2]['name'] = '2'
+    nums3['symbols'][-1]['name'] = '5'
+    nums4 = copy.deepcopy(nums)
+    nums4['symbols'][-2]['name'] = '6'
+    nums4['symbols'][-1]['name'] = '4'
+    return [ring, nums, nums2, nums3, nums4]
 
 
 def run(ctx):
